@@ -1138,4 +1138,169 @@ theorem unitStep_safe (p : Prim) (h : unitSafe p.2 = true) : unitStep p = (p.1, 
   · have hu' : hasUnitArg p.2 = false := by simpa using hu
     simp [hu', dropUnit_of_noUnitArg _ hu']
 
+/-! ### the three passes -/
+
+theorem instType_of_ground (U : List Ty) (bound : Nat) (t : Ty) (h : polys t = []) : instType U bound t = [t] := by
+  unfold instType
+  simp only [h]
+  rfl
+
+theorem universe_ground (P : List Prim) : ∀ u ∈ typeUniverse (basicTypes P), polys u = [] :=
+  fun u hu => inUniverse_ground ((mem_typeUniverse P u).mp hu)
+
+theorem instType_ground (P : List Prim) (bound : Nat) (τ t : Ty)
+    (h : t ∈ instType (typeUniverse (basicTypes P)) bound τ) : polys t = [] := by
+  rw [mem_instType _ (universe_ground P)] at h
+  obtain ⟨σ, hσ, e⟩ := h
+  rw [e]
+  exact polys_applySubst σ τ (fun q hq => universe_ground P _ (hσ q hq).1)
+
+theorem instType_wf (P : List Prim) (hP : ∀ p ∈ P, wf p.2 = true) (bound : Nat) (τ t : Ty) (hτ : wf τ = true)
+    (h : t ∈ instType (typeUniverse (basicTypes P)) bound τ) : wf t = true := by
+  rw [mem_instType _ (universe_ground P)] at h
+  obtain ⟨σ, hσ, e⟩ := h
+  rw [e]
+  exact wf_applySubst σ τ hτ (fun q hq => inUniverse_wf hP ((mem_typeUniverse P _).mp (hσ q hq).1))
+
+theorem hasVars_false_iff (p : Prim) : hasVars p = false ↔ polys p.2 = [] := by
+  unfold hasVars; simp
+
+/-- what the loop over the polymorphic primitives leaves -/
+theorem mem_varPass (P : List Prim) (bound : Nat) (x : Prim) :
+    x ∈ varPass (typeUniverse (basicTypes P)) bound P ↔
+      ∃ p ∈ P, ∃ t ∈ instType (typeUniverse (basicTypes P)) bound p.2, x = (p.1, t) := by
+  unfold varPass
+  rw [mem_expandPass]
+  · constructor
+    · rintro ⟨hx, h | ⟨p, hp, _, hm⟩⟩
+      · refine ⟨x, h, x.2, ?_, rfl⟩
+        rw [instType_of_ground _ _ _ ((hasVars_false_iff x).mp hx)]; simp
+      · rw [List.mem_map] at hm
+        obtain ⟨t, ht, e⟩ := hm
+        exact ⟨p, hp, t, ht, e.symm⟩
+    · rintro ⟨p, hp, t, ht, e⟩
+      subst e
+      refine ⟨(hasVars_false_iff _).mpr (instType_ground P bound p.2 t ht), ?_⟩
+      by_cases hv : hasVars p = true
+      · exact Or.inr ⟨p, hp, hv, List.mem_map.mpr ⟨t, ht, rfl⟩⟩
+      · have hv' : hasVars p = false := by simpa using hv
+        rw [instType_of_ground _ _ _ ((hasVars_false_iff p).mp hv'), List.mem_singleton] at ht
+        subst ht
+        exact Or.inl hp
+  · intro p _ x hx
+    rw [List.mem_map] at hx
+    obtain ⟨t, ht, e⟩ := hx
+    subst e
+    exact (hasVars_false_iff _).mpr (instType_ground P bound p.2 t ht)
+
+theorem manyVersions_false_of_noSum (p : Prim) (h : hasSum p.2 = false) : manyVersions p = false := by
+  unfold manyVersions
+  rw [versions_of_noSum _ h]
+  simp
+
+theorem noSum_of_manyVersions_false (p : Prim) (hw : wf p.2 = true) (h : manyVersions p = false) :
+    hasSum p.2 = false := by
+  cases hs : hasSum p.2 with
+  | false => rfl
+  | true =>
+    have := versions_two p.2 hw hs
+    unfold manyVersions at h
+    simp at h
+    omega
+
+/-- what the loop over the sum types leaves (for well-formed types) -/
+theorem mem_sumPass (L : List Prim) (hL : ∀ x ∈ L, wf x.2 = true) (y : Prim) :
+    y ∈ sumPass L ↔ ∃ x ∈ L, ∃ v ∈ versions x.2, y = (x.1, v) := by
+  unfold sumPass
+  rw [mem_expandPass]
+  · constructor
+    · rintro ⟨hy, h | ⟨x, hx, _, hm⟩⟩
+      · refine ⟨y, h, y.2, ?_, rfl⟩
+        rw [versions_of_noSum _ (noSum_of_manyVersions_false y (hL y h) hy)]; simp
+      · rw [List.mem_map] at hm
+        obtain ⟨v, hv, e⟩ := hm
+        exact ⟨x, hx, v, hv, e.symm⟩
+    · rintro ⟨x, hx, v, hv, e⟩
+      subst e
+      refine ⟨manyVersions_false_of_noSum _ (versions_noSum x.2 v hv), ?_⟩
+      by_cases hm : manyVersions x = true
+      · exact Or.inr ⟨x, hx, hm, List.mem_map.mpr ⟨v, hv, rfl⟩⟩
+      · have hm' : manyVersions x = false := by simpa using hm
+        rw [versions_of_noSum _ (noSum_of_manyVersions_false x (hL x hx) hm'), List.mem_singleton] at hv
+        subst hv
+        exact Or.inl hx
+  · intro p _ x hx
+    rw [List.mem_map] at hx
+    obtain ⟨v, hv, e⟩ := hx
+    subst e
+    exact manyVersions_false_of_noSum _ (versions_noSum p.2 v hv)
+
+theorem mem_unitPass (L : List Prim) (r : Prim) : r ∈ unitPass L ↔ ∃ y ∈ L, r = unitStep y := by
+  unfold unitPass
+  rw [mem_dedup, List.mem_map]
+  constructor
+  · rintro ⟨y, hy, e⟩; exact ⟨y, hy, e.symm⟩
+  · rintro ⟨y, hy, e⟩; exact ⟨y, hy, e.symm⟩
+
+/-- the primitives before the unit pass -/
+def preUnit (P : List Prim) (bound : Nat) : List Prim :=
+  sumPass (varPass (typeUniverse (basicTypes P)) bound P)
+
+theorem mem_preUnit (P : List Prim) (hP : ∀ p ∈ P, wf p.2 = true) (bound : Nat) (y : Prim) :
+    y ∈ preUnit P bound ↔
+      ∃ p ∈ P, ∃ t ∈ instType (typeUniverse (basicTypes P)) bound p.2, ∃ v ∈ versions t, y = (p.1, v) := by
+  unfold preUnit
+  rw [mem_sumPass]
+  · constructor
+    · rintro ⟨x, hx, v, hv, e⟩
+      rw [mem_varPass] at hx
+      obtain ⟨p, hp, t, ht, e'⟩ := hx
+      subst e'
+      exact ⟨p, hp, t, ht, v, hv, e⟩
+    · rintro ⟨p, hp, t, ht, v, hv, e⟩
+      exact ⟨(p.1, t), (mem_varPass P bound _).mpr ⟨p, hp, t, ht, rfl⟩, v, hv, e⟩
+  · intro x hx
+    rw [mem_varPass] at hx
+    obtain ⟨p, hp, t, ht, e⟩ := hx
+    subst e
+    exact instType_wf P hP bound p.2 t (hP p hp) ht
+
+theorem mem_instantiate (P : List Prim) (bound : Nat) (r : Prim) :
+    r ∈ instantiate P bound ↔ ∃ y ∈ preUnit P bound, r = unitStep y := by
+  unfold instantiate preUnit
+  exact mem_unitPass _ r
+
+/-- the instances before the unit pass, in the words of the specification -/
+theorem mem_preUnit_spec (P : List Prim) (hP : ∀ p ∈ P, wf p.2 = true) (bound : Nat) (y : Prim) :
+    y ∈ preUnit P bound ↔
+      ∃ p ∈ P, ∃ σ, Admissible P bound p.2 σ ∧ ∃ c, Choice (applySubst σ p.2) c ∧ y = (p.1, c) := by
+  rw [mem_preUnit P hP]
+  constructor
+  · rintro ⟨p, hp, t, ht, v, hv, e⟩
+    rw [mem_instType _ (universe_ground P)] at ht
+    obtain ⟨σ, hσ, et⟩ := ht
+    subst et
+    refine ⟨p, hp, σ, ?_, v, (mem_versions_iff _ _).mp hv, e⟩
+    intro q hq
+    exact ⟨(mem_typeUniverse P _).mp (hσ q hq).1, (hσ q hq).2⟩
+  · rintro ⟨p, hp, σ, hσ, c, hc, e⟩
+    refine ⟨p, hp, applySubst σ p.2, ?_, c, (mem_versions_iff _ _).mpr hc, e⟩
+    rw [mem_instType _ (universe_ground P)]
+    exact ⟨σ, fun q hq => ⟨(mem_typeUniverse P _).mpr (hσ q hq).1, (hσ q hq).2⟩, rfl⟩
+
+/-- a list of ground, sum-free primitives without unit arguments and without repetition is
+    left unchanged by an instantiation -/
+theorem instantiate_fixed (R : List Prim) (bound : Nat) (hnd : R.Nodup)
+    (h : ∀ r ∈ R, polys r.2 = [] ∧ hasSum r.2 = false ∧ hasUnitArg r.2 = false) :
+    instantiate R bound = R := by
+  unfold instantiate varPass sumPass unitPass
+  rw [expandPass_id _ _ R (fun r hr => (hasVars_false_iff r).mpr (h r hr).1)]
+  rw [expandPass_id _ _ R (fun r hr => manyVersions_false_of_noSum r (h r hr).2.1)]
+  have : R.map unitStep = R := by
+    conv => rhs; rw [← List.map_id R]
+    apply List.map_congr_left
+    intro r hr
+    simp [unitStep, (h r hr).2.2]
+  rw [this, dedup_of_nodup hnd]
+
 end PS.Dsl
